@@ -920,6 +920,8 @@ class SA(numpy.ndarray):
 
 
 def _dt(d):
+    if hasattr(d, "_np_dtype"):          # the rebound builtins float / int used as dtype arguments
+        d = d._np_dtype
     try:
         return numpy.dtype(d)
     except Exception:
